@@ -1571,8 +1571,12 @@ mod termios_ {
     use std::collections::HashMap;
     use std::os::unix::io::{BorrowedFd, RawFd};
     pub fn disable_raw_mode(tty_in: RawFd, termios: &Termios) -> Result<()> {
-        let fd = unsafe { BorrowedFd::borrow_raw(tty_in) };
-        Ok(termios::tcsetattr(fd, SetArg::TCSADRAIN, termios)?)
+        // `termios` is the untouched result of `tcgetattr`: give the kernel's own copy back.
+        // Going through nix's typed flag fields would drop the bits nix has no name for
+        // (IUCLC, XCASE, OFILL, ...) and leave the terminal different from how it was found.
+        let original: libc::termios = termios.clone().into();
+        nix::errno::Errno::result(unsafe { libc::tcsetattr(tty_in, libc::TCSADRAIN, &original) })?;
+        Ok(())
     }
     pub fn enable_raw_mode(tty_in: RawFd, enable_signals: bool) -> Result<(Termios, PosixKeyMap)> {
         use nix::sys::termios::{ControlFlags, InputFlags, LocalFlags};
